@@ -1,5 +1,5 @@
 """property id -> suites, evidence rule, trusted base additions"""
-from suites import props_tree, prims, monitor
+from suites import props_tree, prims, monitor, legacy
 
 RULE_TREE = ("random operation histories (weighted words over fit / refine / recluster / set_merge / setters / "
              "delete_internal_nodes / reset / malformed fit; feature counts 1..24, 63, 64, 65, 100, 256; prototype+noise, "
@@ -24,6 +24,9 @@ PROPS: dict = {
     "C01": {"suites": [props_tree.c01], "rule": RULE_TREE},
     "C02": {"suites": [props_tree.c02], "rule": RULE_TREE},
     "C03": {"suites": [props_tree.c03], "rule": RULE_TREE},
+    "C07": {"suites": [props_tree.c07, legacy.suite_legacy], "rule": RULE_TREE + "; S-LEGACY: bblean vs _legacy.bb_uint8 vs "
+            "_legacy.bb_int64 on 2048-bit inputs (radius, diameter, tolerance-legacy), non-trivial = case with a multi-member cluster"},
+    "C08": {"suites": [props_tree.c08], "rule": RULE_TREE},
     "C09": {"suites": [props_tree.c09], "rule": RULE_TREE},
     "C10": {"suites": [prims.suite_merge], "rule": RULE_MERGE},
     "C11": {"suites": [prims.suite_isim], "rule": RULE_PRIM},
